@@ -18,19 +18,22 @@ import (
 const verifDir = "/verif"
 
 type PropConfig struct {
-	ID         string   `json:"id"`
-	Packages   []string `json:"packages"`
-	Functions  []string `json:"functions"` // regexps over short function keys of contracts to verify
-	Exclude    []string `json:"exclude"`
-	MinObls    int      `json:"min_obligations"`
-	NotDecided []string `json:"not_decided"`
-	Assumes    []string `json:"assumptions"`
-	Bounded    []string `json:"bounded"`
-	DesignRef  string   `json:"design_ref"`
-	Lemmas     []string `json:"lemmas"`
-	JSONSweep  bool     `json:"jsonable_sweep"`
+	ID         string         `json:"id"`
+	Packages   []string       `json:"packages"`
+	Functions  []string       `json:"functions"` // regexps over short function keys of contracts to verify
+	Exclude    []string       `json:"exclude"`
+	MinObls    int            `json:"min_obligations"`
+	NotDecided []string       `json:"not_decided"`
+	Assumes    []string       `json:"assumptions"`
+	Bounded    []string       `json:"bounded"`
+	DesignRef  string         `json:"design_ref"`
+	Lemmas     []string       `json:"lemmas"`
+	JSONSweep  bool           `json:"jsonable_sweep"`
 	Confine    *ConfineConfig `json:"confine"`
 	PathAxioms map[string]int `json:"path_axioms"` // tier -> maximum number of path components
+	// returns that are unreachable under the contracts' assumptions, each reviewed and explained; any
+	// other unreachable return is reported as a vacuity violation
+	ExpectedDead map[string]string `json:"expected_dead"`
 }
 
 type KnownFinding struct {
@@ -273,7 +276,23 @@ func cmdCheck(args []string) {
 	}
 	vac, deadRets := vacuous(all)
 	failed = append(failed, vac...)
-	_ = deadRets
+	isVac := map[*Obligation]bool{}
+	for _, o := range vac {
+		isVac[o] = true
+	}
+	var deadNotes []string
+	for _, o := range deadRets {
+		if why, ok := cfg.ExpectedDead[o.ID]; ok {
+			deadNotes = append(deadNotes, o.ID+" ("+why+")")
+			continue
+		}
+		if !isVac[o] {
+			failed = append(failed, o) // an unexplained unreachable return: the contracts may be inconsistent
+		}
+	}
+	if len(deadNotes) > 0 {
+		cfg.Assumes = append(cfg.Assumes, "returns unreachable under the contracts' assumptions (reviewed): "+strings.Join(deadNotes, "; "))
+	}
 	sort.Slice(failed, func(i, j int) bool { return failed[i].ID < failed[j].ID })
 	for _, o := range failed {
 		if f := openByObl[o.ID]; f != nil {
